@@ -926,7 +926,10 @@ func identIsParam(info *types.Info, fd *ast.FuncDecl, id *ast.Ident) bool {
 // for an empty tree. The searches and the unlinking themselves are decided by bst-agreement and
 // bst-links.
 var treeAnswerSpecs = map[string][]string{
-	"Contains": {"return !(SEARCH(param#0, param#1)#0 == nil)"},
+	"Contains": {
+		"!(SEARCH(param#0, param#1)#0 == nil); return true",
+		"(SEARCH(param#0, param#1)#0 == nil); return false",
+	},
 	"Remove": {
 		"!(SEARCH(param#0, param#1)#0 == nil); call UNLINK(param#0, SEARCH(param#0, param#1)#0, SEARCH(param#0, param#1)#1); return true",
 		"(SEARCH(param#0, param#1)#0 == nil); return false",
